@@ -235,6 +235,11 @@ def _wrun(run):
         rng = rng_for(seed, mod.PROP, run)
         case = mod.generate(rng, tier, run)
         hs = execute_case(mod, sim, case)
+        if hasattr(mod, "expand"):
+            bigger = mod.expand(case, hs)     # e.g. enumerate every fault position of this program
+            if bigger is not None:
+                case = bigger
+                hs = execute_case(mod, sim, case)
         viols = mod.judge(case, hs)
         sig = mod.signature(case, hs)
         hh = [history_hash(h) for h in hs]
@@ -302,8 +307,9 @@ def run_check(modname, tier, n_runs, workers=None, time_cap_s=None, level="explo
     mod = importlib.import_module(modname)
     prop = mod.PROP
     seed = int(os.environ.get("VERIF_SEED", "1"))
-    t0 = time.time()
+    t_start = time.time()
     ensure_build()
+    t0 = time.time()          # the batch time cap does not include the (possibly cold) build
     workers = workers or min(16, os.cpu_count() or 4)
     workers = int(os.environ.get("VERIF_WORKERS", workers))
     known = load_known(prop)
@@ -348,6 +354,9 @@ def run_check(modname, tier, n_runs, workers=None, time_cap_s=None, level="explo
         else:
             new_keys.append(key)
 
+    if len(new_keys) > 5 or os.environ.get("VERIF_LIST_KEYS"):
+        for key in new_keys:
+            print("  new key: %-70s runs=%d first=%d" % (key, len(by_key[key]), by_key[key][0]), flush=True)
     violations_out = []
     sim = SimVM()
     exit_code = 0
@@ -357,6 +366,10 @@ def run_check(modname, tier, n_runs, workers=None, time_cap_s=None, level="explo
             case = results[i]["case"]
             if case is None:
                 case = mod.generate(rng_for(seed, prop, i), tier, i)
+                if hasattr(mod, "expand"):
+                    bigger = mod.expand(case, execute_case(mod, sim, case))
+                    if bigger is not None:
+                        case = bigger
             # gate 1: same plan, same verdict twice
             hs_a = execute_case(mod, sim, case)
             hs_b = execute_case(mod, sim, case)
@@ -407,7 +420,7 @@ def run_check(modname, tier, n_runs, workers=None, time_cap_s=None, level="explo
                 d = agg.setdefault(k, {})
                 for kk, vv in v.items():
                     d[kk] = d.get(kk, 0) + vv
-    wall = time.time() - t0
+    wall = time.time() - t_start
     samples = []
     for i in runs[:3]:
         c = results[i].get("case")
@@ -421,7 +434,8 @@ def run_check(modname, tier, n_runs, workers=None, time_cap_s=None, level="explo
     ev = {
         "property_id": prop, "tier": tier, "seed": seed, "level": level,
         "coverage": {
-            "evaluations": len(runs),
+            "evaluations": int(agg.get("executions", len(runs))),
+            "cases": len(runs),
             "distinct_nontrivial": len(sigs),
             "rule": getattr(mod, "RULE", ""),
             "samples": samples,
